@@ -26,27 +26,27 @@ G8(a, b) == <<a, b, a, a, b, b, a, b>>
 HybSeed(bw, a, b) == Ser(<<[k |-> "rle", n |-> 9, v |-> a], [k |-> "bp", vals |-> G8(a, b) \o G8(b, a)],
                            [k |-> "rle", n |-> 0, v |-> b], [k |-> "rle", n |-> 2, v |-> b]>>, bw)
 StrSeed == <<<<97, 98>>, <<>>, <<97, 98, 99, 100>>, <<97>>, <<255, 0>>>>
-Seeds == <<
-   [f |-> "hyb", bw |-> 1, n |-> 27, bytes |-> HybSeed(1, 1, 0)],
-   [f |-> "hyb", bw |-> 3, n |-> 27, bytes |-> HybSeed(3, 7, 2)],
-   [f |-> "hyb", bw |-> 9, n |-> 27, bytes |-> HybSeed(9, 511, 3)],
-   [f |-> "hyb", bw |-> 32, n |-> 10, bytes |-> SerW(<<[k |-> "rle", n |-> 2, v |-> Ones(4)], [k |-> "bp", vals |-> [i \in 1..8 |-> IF i % 2 = 0 THEN Ones(4) ELSE <<1, 0, 0, 128>>]]>>, 32)],
-   [f |-> "lvlp", bw |-> 2, n |-> 27, bytes |-> LET b == HybSeed(2, 3, 1) IN LE(Len(b), 4) \o b \o <<9, 9>>],
-   [f |-> "d32", bw |-> 0, n |-> 2, bytes |-> D!Ser(C!DeltaSeq(3, 4, 0, 2, FromNat(5, 4)), 4, D!StdOpts)],
-   [f |-> "d32", bw |-> 0, n |-> 34, bytes |-> D!Ser(C!DeltaSeq(9, 4, 1, 34, C!MinW(4)), 4, D!StdOpts)],
-   [f |-> "d32", bw |-> 0, n |-> 130, bytes |-> D!Ser(C!DeltaSeq(32, 4, 0, 130, FromNat(5, 4)), 4, [bs |-> 128, m |-> 4, widen |-> 0, unused |-> 255])],
-   [f |-> "d64", bw |-> 0, n |-> 34, bytes |-> D!Ser(C!DeltaSeq(40, 8, 0, 34, FromNat(5, 8)), 8, D!StdOpts)],
-   [f |-> "d64", bw |-> 0, n |-> 3, bytes |-> D!Ser(C!SpecialSeq(8, 0, 3), 8, D!StdOpts)],
-   [f |-> "dlen", bw |-> 0, n |-> 5, bytes |-> DL!Ser(StrSeed, D!StdOpts)],
-   [f |-> "dstr", bw |-> 0, n |-> 5, bytes |-> DS!Ser(StrSeed, D!StdOpts, "max")],
-   [f |-> "dstr", bw |-> 0, n |-> 40, bytes |-> DS!Ser(C!Strs(2, 40), D!StdOpts, "max")],
-   [f |-> "plain6", bw |-> 0, n |-> 5, bytes |-> P!Ser(6, 0, StrSeed)],
-   [f |-> "dictidx", bw |-> 0, n |-> 27, bytes |-> <<3>> \o HybSeed(3, 7, 2)],
-   [f |-> "dictidx", bw |-> 0, n |-> 10, bytes |-> <<32>> \o SerW(<<[k |-> "bp", vals |-> [i \in 1..8 |-> IF i % 2 = 0 THEN Ones(4) ELSE <<1, 0, 0, 128>>]], [k |-> "rle", n |-> 2, v |-> <<0, 0, 0, 128>>]>>, 32)]
->>
+NSeeds == 16
+Seed(i) ==
+    CASE i = 1 -> [f |-> "hyb", bw |-> 1, n |-> 27, bytes |-> HybSeed(1, 1, 0)]
+      [] i = 2 -> [f |-> "hyb", bw |-> 3, n |-> 27, bytes |-> HybSeed(3, 7, 2)]
+      [] i = 3 -> [f |-> "hyb", bw |-> 9, n |-> 27, bytes |-> HybSeed(9, 511, 3)]
+      [] i = 4 -> [f |-> "hyb", bw |-> 32, n |-> 10, bytes |-> SerW(<<[k |-> "rle", n |-> 2, v |-> Ones(4)], [k |-> "bp", vals |-> [i \in 1..8 |-> IF i % 2 = 0 THEN Ones(4) ELSE <<1, 0, 0, 128>>]]>>, 32)]
+      [] i = 5 -> [f |-> "lvlp", bw |-> 2, n |-> 27, bytes |-> LET b == HybSeed(2, 3, 1) IN LE(Len(b), 4) \o b \o <<9, 9>>]
+      [] i = 6 -> [f |-> "d32", bw |-> 0, n |-> 2, bytes |-> D!Ser(C!DeltaSeq(3, 4, 0, 2, FromNat(5, 4)), 4, D!StdOpts)]
+      [] i = 7 -> [f |-> "d32", bw |-> 0, n |-> 34, bytes |-> D!Ser(C!DeltaSeq(9, 4, 1, 34, C!MinW(4)), 4, D!StdOpts)]
+      [] i = 8 -> [f |-> "d32", bw |-> 0, n |-> 130, bytes |-> D!Ser(C!DeltaSeq(32, 4, 0, 130, FromNat(5, 4)), 4, [bs |-> 128, m |-> 4, widen |-> 0, unused |-> 255])]
+      [] i = 9 -> [f |-> "d64", bw |-> 0, n |-> 34, bytes |-> D!Ser(C!DeltaSeq(40, 8, 0, 34, FromNat(5, 8)), 8, D!StdOpts)]
+      [] i = 10 -> [f |-> "d64", bw |-> 0, n |-> 3, bytes |-> D!Ser(C!SpecialSeq(8, 0, 3), 8, D!StdOpts)]
+      [] i = 11 -> [f |-> "dlen", bw |-> 0, n |-> 5, bytes |-> DL!Ser(StrSeed, D!StdOpts)]
+      [] i = 12 -> [f |-> "dstr", bw |-> 0, n |-> 5, bytes |-> DS!Ser(StrSeed, D!StdOpts, "max")]
+      [] i = 13 -> [f |-> "dstr", bw |-> 0, n |-> 40, bytes |-> DS!Ser(C!Strs(2, 40), D!StdOpts, "max")]
+      [] i = 14 -> [f |-> "plain6", bw |-> 0, n |-> 5, bytes |-> P!Ser(6, 0, StrSeed)]
+      [] i = 15 -> [f |-> "dictidx", bw |-> 0, n |-> 27, bytes |-> <<3>> \o HybSeed(3, 7, 2)]
+      [] i = 16 -> [f |-> "dictidx", bw |-> 0, n |-> 10, bytes |-> <<32>> \o SerW(<<[k |-> "bp", vals |-> [i \in 1..8 |-> IF i % 2 = 0 THEN Ones(4) ELSE <<1, 0, 0, 128>>]], [k |-> "rle", n |-> 2, v |-> <<0, 0, 0, 128>>]>>, 32)]
 
 \* ---- classification: under which readings is the input a valid, complete stream ----
-HybOk(bs, bw) == ParseRuns(bs, 1, Len(bs), bw).ok
+HybOk(bs, bw) == WellFormed(bs, 1, Len(bs), bw)
 Tags(bs) ==
     {"hyb0" : x \in {1} \cap (IF HybOk(bs, 0) THEN {1} ELSE {})}
     \cup {"hyb1" : x \in {1} \cap (IF HybOk(bs, 1) THEN {1} ELSE {})}
@@ -68,23 +68,25 @@ SeedOk(s, bs) ==
 
 Init == c = [lvl |-> 0]
 Next ==
-    \/ c.lvl = 0 /\ c' \in [lvl : {1}, o : {"alpha"}, b : Alphabet] \cup [lvl : {1}, o : {"mut"}, s : 1..Len(Seeds)]
+    \/ c.lvl = 0 /\ c' \in [lvl : {1}, o : {"alpha"}, b : Alphabet] \cup [lvl : {1}, o : {"mut"}, s : 1..NSeeds]
                           \cup {[lvl |-> 2, o |-> "alpha", bytes |-> <<>>]}
     \/ c.lvl = 1 /\ c.o = "alpha"
        /\ c' \in {[lvl |-> 2, o |-> "alpha", bytes |-> <<c.b>> \o t] : t \in UNION {[1..k -> Alphabet] : k \in 0..(MaxAlpha - 1)}}
     \/ c.lvl = 1 /\ c.o = "mut"
-       /\ LET sb == Seeds[c.s].bytes
-          IN c' \in {[lvl |-> 2, o |-> "sub", s |-> c.s, bytes |-> [sb EXCEPT ![i] = b]] : i \in 1..Len(sb), b \in Alphabet}
-                    \cup {[lvl |-> 2, o |-> "cut", s |-> c.s, bytes |-> SubSeq(sb, 1, k)] : k \in 0..(Len(sb) - 1)}
-                    \cup {[lvl |-> 2, o |-> "ext", s |-> c.s, bytes |-> Append(sb, b)] : b \in Alphabet}
-                    \cup {[lvl |-> 2, o |-> "seed", s |-> c.s, bytes |-> sb]}
+       /\ LET sd == Seed(c.s)
+              sb == sd.bytes
+              par == [f |-> sd.f, bw |-> sd.bw, n |-> sd.n]
+          IN c' \in {[lvl |-> 2, o |-> "sub", s |-> par, bytes |-> [sb EXCEPT ![i] = b]] : i \in 1..Len(sb), b \in Alphabet}
+                    \cup {[lvl |-> 2, o |-> "cut", s |-> par, bytes |-> SubSeq(sb, 1, k)] : k \in 0..(Len(sb) - 1)}
+                    \cup {[lvl |-> 2, o |-> "ext", s |-> par, bytes |-> Append(sb, b)] : b \in Alphabet}
+                    \cup {[lvl |-> 2, o |-> "seed", s |-> par, bytes |-> sb]}
 
 Emit == IF c.o = "alpha" THEN PrintT(ToJson([kind |-> "fuzz", o |-> "alpha", bytes |-> c.bytes, tags |-> Tags(c.bytes)]))
-        ELSE LET s == Seeds[c.s]
+        ELSE LET s == c.s
              IN PrintT(ToJson([kind |-> "fuzz", o |-> c.o, f |-> s.f, bw |-> s.bw, n |-> s.n, bytes |-> c.bytes,
                                valid |-> SeedOk(s, c.bytes)]))
 EmitInv == c.lvl < 2 \/ Emit
 \* the seeds themselves must be valid under their own parameters (oracle self-check)
-SeedsValid == \A i \in 1..Len(Seeds) : Seeds[i].f = "dictidx" \/ SeedOk(Seeds[i], Seeds[i].bytes)
+SeedsValid == \A i \in 1..NSeeds : Seed(i).f = "dictidx" \/ SeedOk(Seed(i), Seed(i).bytes)
 ASSUME SeedsValid
 =============================================================================
